@@ -8,10 +8,10 @@ Definition enc_optz (o : option Z) : list Z := match o with Some z => [1; z] | N
 Definition enc_bool (b : bool) : Z := if b then 1 else 0.
 
 (* what the public getters return *)
-Definition obs_api (s : layer) : list Z :=
+Definition obs_api (c : cfg) (s : layer) : list Z :=
   enc_str (get_name s)
   ++ [enc_bool (get_visible s); get_opacity s]
-  ++ enc_optz (get_blend s)
+  ++ enc_optz (get_blend c s)
   ++ [get_left s; get_top s; get_right s; get_bottom s; get_width s; get_height s; enc_bool (get_clip s)]
   ++ enc_optz (get_lock s)
   ++ [kind_code (l_kind s)].
@@ -28,9 +28,13 @@ Definition obs_raw (s : layer) : list Z :=
      end
   ++ enc_optz (l_lspf s)
   ++ enc_optz (l_iopa s)
-  ++ [enc_bool (l_attached s); l_pixels s].
+  ++ [enc_bool (l_attached s); l_pixels s]
+  ++ match l_lsdk s with
+     | Some d => [1; sd_kind d; enc_bool (sd_sig d)] ++ enc_optz (sd_blend d) ++ enc_optz (sd_sub d)
+     | None => [0]
+     end.
 
-Definition obs (s : layer) : list Z := obs_api s ++ obs_raw s.
+Definition obs (c : cfg) (s : layer) : list Z := obs_api c s ++ obs_raw s.
 
 (* after each operation: 0 and the observation, or the exception code (state unchanged) *)
 Fixpoint trace (c : cfg) (ops : list op) (s : layer) : list Z :=
@@ -38,12 +42,12 @@ Fixpoint trace (c : cfg) (ops : list op) (s : layer) : list Z :=
   | [] => []
   | o :: r =>
       match apply c o s with
-      | AOk s' => 0 :: obs s' ++ trace c r s'
+      | AOk s' => 0 :: obs c s' ++ trace c r s'
       | AErr e => aerr_code e :: trace c r s
       end
   end.
 
-Definition case_out (c : cfg) (s : layer) (ops : list op) : list Z := obs s ++ trace c ops s.
+Definition case_out (c : cfg) (s : layer) (ops : list op) : list Z := obs c s ++ trace c ops s.
 
 Definition case_digest (a : cfg * layer * list op) : list Z :=
   let '(c, s, ops) := a in [to_Z (h63_list 0%uint63 (case_out c s ops))].
@@ -57,6 +61,6 @@ Definition macroman_probe (l : list Z) : list Z := map (fun c => enc_bool (macro
 
 (* constructors *)
 Definition ctor_group (a : cfg * list Z * bool * Z) : list Z :=
-  let '(c, n, o, pix) := a in obs (new_group c n o pix).
+  let '(c, n, o, pix) := a in obs c (new_group c n o pix).
 Definition ctor_pixel (a : cfg * bool * list Z * (Z * Z * Z * Z) * (Z * Z * Z)) : list Z :=
-  let '(c, att, n, (t, l, w, h), (dw, dh, pix)) := a in obs (new_pixel c att n t l w h dw dh pix).
+  let '(c, att, n, (t, l, w, h), (dw, dh, pix)) := a in obs c (new_pixel c att n t l w h dw dh pix).
